@@ -47,7 +47,7 @@ def main():
         tb = core.build_harness()
         if getattr(mod, "NEEDS_CVM", False):
             core.build_cvm()
-        tl = core.build_lean(["pmodel", "PortusModel.Props." + prop])
+        tl = core.build_lean(["pmodel", "PortusModel.Props." + prop] + list(getattr(mod, "AUDIT_IMPORTS", ())))
         notes.append("harness build %.1fs, lake build %.1fs" % (tb, tl))
         built = True
     except Fail as e:
@@ -59,7 +59,7 @@ def main():
         # ---------------- proof audit
         bad = core.grep_audit()
         proof["forbidden_tokens"] = bad
-        ax = core.axiom_audit(prop, mod.THEOREMS) if mod.THEOREMS else {}
+        ax = core.axiom_audit(prop, mod.THEOREMS, getattr(mod, "AUDIT_IMPORTS", ())) if mod.THEOREMS else {}
         proof["obligations"] = len(mod.THEOREMS)
         for t in mod.THEOREMS:
             axs = ax.get(t)
